@@ -1,5 +1,7 @@
 package main
 
+import "os"
+
 func init() { subcmds["c07"] = runC07 }
 
 func runC07(rc *runCtx) error {
@@ -28,6 +30,9 @@ func runC07(rc *runCtx) error {
 	for i := 0; i < nk; i++ {
 		at := []int{1, 2, 3, 5, 8, 13, 21, 34, -1, -2, -2, -1}[r.IntN(12)]
 		killJobs = append(killJobs, [4]int{1000 + i, []int{0, 1, 2}[r.IntN(3)], 1 + r.IntN(4), at})
+	}
+	if rc.thorough() {
+		os.Setenv("VERIF_BIGN", "5000") // size of the oversized rejected insert request (children inherit the environment)
 	}
 	return runHistories(rc, "c07", n, []int{0, 1, 2, 0}, nfiles,
 		[]string{"Bytes", "Pack", "Value", "Obs", "Run_C07"}, "hist", "C07")
